@@ -57,7 +57,7 @@ func findDefinitionTarget(journal *ast.Journal, pos protocol.Position) *definiti
 
 		payee := getPayeeOrDescription(tx)
 		if payee != "" {
-			payeeRange := estimatePayeeRange(tx, payee)
+			payeeRange := tx.PayeeRange
 			if positionInRange(pos, payeeRange) {
 				return &definitionTarget{
 					context:     DefContextPayee,
